@@ -1456,8 +1456,10 @@ class Compiler:
 
         body = []
 
-        # Track the blocks of this translation
-        self._translations.append(set())
+        # Track the blocks of this translation (a dict, used as an
+        # ordered set: the mapping passed to the translation function
+        # must list the names in document order, not in hash order)
+        self._translations.append({})
 
         # Prepare new stream
         append = identifier("append", id(node))
@@ -1714,7 +1716,7 @@ class Compiler:
             raise TranslationError(
                 "Duplicate translation name: %s.", node.name)
 
-        self._translations[-1].add(node.name)
+        self._translations[-1][node.name] = None
         body = []
 
         # prepare new stream
